@@ -47,6 +47,23 @@ CLAIMED = {
          "Exploration: every built-in infix operator pair (exhaustive, with `not` forms and conditional tails), representative triples, and hundreds of thousands of random flat programs are parsed and compared structurally with a reference parser written from the documented table; held on everything generated.",
          "Trusts the reference parser as the reading of the documented table (itself cross-checked per case by the parenthesised rendering, which needs no precedence knowledge).",
          "DESIGN.md §4 C02"),
+
+ "C08": ("stateful property testing: generated histories of register_* / parse / exec steps, one fresh child process per history over 1-2 persistent threads, against a model registry, the reference parser parameterised by it and a reference evaluator with id-echoing handlers; exhaustive adjacent-precedence table",
+         "Exploration: ~4k histories (fresh and built-in names, re-registrations, overrides before first use, precedences incl. adjacent values up to 10^9, context shadowing, cross-thread re-registration) plus the exhaustive table of a new operator at q-1, q, q+1 around each built-in level; every parse and every evaluation must match the model.",
+         "An operator registered on an existing level takes that level's associativity; postfix spellings are kept disjoint from prefix/infix ones (both undocumented otherwise).",
+         "DESIGN.md §4 C08"),
+ "C13": ("schedule-directed and free-running concurrency testing in fresh child processes: held initialisation through the init probe, barrier races of first calls, re-registration vs evaluation (directed handshake and free-running), against the set of sequentially possible results and a final-state battery",
+         "Exploration: the directed matrix (6 first-call kinds x 3 init stages x 16 concurrent call kinds), ~250 generated held schedules, ~230 barrier races of 2-16 threads and ~200 re-registration races (~800k concurrent evaluations) per quick run; no panic, no deadlock (watchdog), every result sequentially explainable, every registration in effect afterwards. Interleavings the harness cannot force are only sampled.",
+         "Needs the cfg-guarded init probe; deadlock = 10 s watchdog reproduced; the listed known finding (torn registration) is tolerated by exact signature only.",
+         "DESIGN.md §4 C13"),
+ "C14": ("exhaustive matrix plus generated chains in fresh child processes: every handler kind x every re-entrant action, each handler probing all engine locks with try_lock before acting, under a watchdog",
+         "Exploration, exhaustive over the stated matrix: 7 handler kinds x 10 re-entrant actions, all ordered kind pairs x 3 actions, and ~800 generated chains of 2-4 handlers; every handler finds all registries and the evaluating context unlocked, the action completes and the outer evaluation returns the hand-computed value.",
+         "Lock state through the cfg-guarded locks_free() hook and the context's public mutex; single-threaded evaluations, so a held lock is attributable to the engine.",
+         "DESIGN.md §4 C14"),
+ "C18": ("stateful property testing: generated descriptor-registration histories in fresh child processes over 1-3 persistent threads; describe() of every AST after every step on every thread against a model registry of marker descriptors; exhaustive single-registration table",
+         "Exploration: ~3k histories (nine node kinds, names shared across kinds, re-registrations, cross-thread registration) with ~65k describe() comparisons, plus the 9 kinds x name table; rendering must use exactly the registered descriptor and the documented default otherwise.",
+         "Registrations go through the cfg-guarded re-export of DescriptorManager; ASTs come from fully parenthesised text.",
+         "DESIGN.md §4 C18"),
  "C09": ("property-based testing: generated decimal literals and operand pairs against exact big-integer decimal arithmetic; malformed-literal corpus and generator",
          "Exploration: literals of every digit count/scale and pairs under + - * % < <= > >= == != and compound forms are evaluated and compared with exact arithmetic whenever the exact result is representable; malformed literals must be rejected.",
          "Trusts the harness's big-integer decimal code (unit-tested); results that need rounding are not asserted.",
